@@ -61,11 +61,23 @@ impl ItemDefinitionTypeEvaluator {
   /// Evaluates a type of item definition with specified type reference name.
   pub fn eval(&self, type_ref: &str) -> Option<FeelType> {
     if let Some(evaluator) = self.evaluators.get(type_ref) {
-      evaluator(self)
+      // item definition that refers to itself (directly or not) has no finite type
+      if VISITED.with(|visited| visited.borrow().iter().any(|visited_type_ref| visited_type_ref == type_ref)) {
+        return None;
+      }
+      VISITED.with(|visited| visited.borrow_mut().push(type_ref.to_string()));
+      let feel_type = evaluator(self);
+      VISITED.with(|visited| visited.borrow_mut().pop());
+      feel_type
     } else {
       None
     }
   }
+}
+
+thread_local! {
+  /// Names of item definitions whose types are currently being evaluated.
+  static VISITED: std::cell::RefCell<Vec<String>> = std::cell::RefCell::new(vec![]);
 }
 
 ///
